@@ -60,12 +60,18 @@ _load_oui_names()
 
 def _compare_helper (self, other, f, rf):
   t = type(self)
+  # None denotes no address and an address of another class is never the same
+  # address.  NotImplemented lets Python fall back: == is False, != is True,
+  # ordering raises TypeError.
+  if other is None or (isinstance(other, _AddrBase)
+                       and not isinstance(other, t)):
+    return NotImplemented
   try:
     if isinstance(other, t): ov = other._value
     else: ov = t(other)._value
-    return getattr(self._value, f)(ov)
   except Exception:
-    return getattr(other, rf)(self)
+    return NotImplemented
+  return getattr(self._value, f)(ov)
 
 
 class _AddrBase (object):
